@@ -155,7 +155,7 @@ class Replay:
                 f = flags.get(name, "")
                 if not f:
                     continue
-                fl = ("b" if ("e" in f or "n" in f) else "") + ("i" if ("i" in f or "h" in f) else "") + ("o" if "o" in f else "") + ("x" if name in broken else "")
+                fl = ("b" if ("e" in f or "n" in f) else "") + ("i" if ("i" in f or "h" in f) else "") + ("o" if "o" in f else "")
                 r = rd(name) if ("i" in fl and "b" not in fl) else "~"
                 wv = "~"
                 if "o" in fl and "b" not in fl:
